@@ -55,6 +55,19 @@ impl Debug for ZB { fn fmt(&self, f: &mut fmt::Formatter<'_>) -> fmt::Result { w
 pub struct WA(pub ZA);
 impl Debug for WA { fn fmt(&self, f: &mut fmt::Formatter<'_>) -> fmt::Result { write!(f, "Z") } }
 
+/// Key families whose hand-written `Hash` is coarser than their `Eq` (legal: equal values hash equal, unequal values
+/// may collide): `HK(a,b)` hashes `a` only, `CK(v)` hashes nothing. Unequal values of ONE type with identical hash.
+#[derive(Clone, PartialEq, Eq, Debug)]
+pub struct HK(pub u8, pub u8);
+impl Hash for HK { fn hash<H: Hasher>(&self, state: &mut H) { self.0.hash(state); } }
+#[derive(Clone, PartialEq, Eq, Debug)]
+pub struct CK(pub u8);
+impl Hash for CK { fn hash<H: Hasher>(&self, _state: &mut H) {} }
+
+static S_HK0: HK = HK(0, 0);
+static S_HK1: HK = HK(0, 1);
+static S_CK0: CK = CK(0);
+static S_CK1: CK = CK(1);
 static S_ZA: ZA = ZA;
 static S_ZB: ZB = ZB;
 static S_WA: WA = WA(ZA);
@@ -69,16 +82,17 @@ static S_U0: u8 = 0;
 static S_U1: u8 = 1;
 
 #[derive(Clone, Copy, PartialEq, Eq, Hash, PartialOrd, Ord, Debug)]
-pub enum KFam { A, B, Tup, U8, BoxA, RcA, ArcA, BoxB, ZA, ZB, Unit, WA, BoxZA, RcZA, ArcZA }
+pub enum KFam { A, B, Tup, U8, BoxA, RcA, ArcA, BoxB, ZA, ZB, Unit, WA, BoxZA, RcZA, ArcZA, HK, CK }
 
-pub const KFAMS: [KFam; 15] = [KFam::A, KFam::B, KFam::Tup, KFam::U8, KFam::BoxA, KFam::RcA, KFam::ArcA, KFam::BoxB,
-  KFam::ZA, KFam::ZB, KFam::Unit, KFam::WA, KFam::BoxZA, KFam::RcZA, KFam::ArcZA];
+pub const KFAMS: [KFam; 17] = [KFam::A, KFam::B, KFam::Tup, KFam::U8, KFam::BoxA, KFam::RcA, KFam::ArcA, KFam::BoxB,
+  KFam::ZA, KFam::ZB, KFam::Unit, KFam::WA, KFam::BoxZA, KFam::RcZA, KFam::ArcZA, KFam::HK, KFam::CK];
 
 impl KFam {
   pub fn name(&self) -> &'static str {
     match self {
       KFam::A => "A", KFam::B => "B", KFam::Tup => "(u8,)", KFam::U8 => "u8", KFam::BoxA => "Box<A>", KFam::RcA => "Rc<A>", KFam::ArcA => "Arc<A>", KFam::BoxB => "Box<B>",
       KFam::ZA => "ZA", KFam::ZB => "ZB", KFam::Unit => "()", KFam::WA => "WA", KFam::BoxZA => "Box<ZA>", KFam::RcZA => "Rc<ZA>", KFam::ArcZA => "Arc<ZA>",
+      KFam::HK => "HK(0,_)", KFam::CK => "CK",
     }
   }
   /// Families without a field have the single value 0.
@@ -91,14 +105,14 @@ impl KFam {
 /// A concrete key value kept by value (so that `&x as &dyn KeyObj` is taken from the concrete value, not from a box).
 pub enum Conc {
   A(A), B(B), Tup((u8,)), U8(u8), BoxA(Box<A>), RcA(Rc<A>), ArcA(Arc<A>), BoxB(Box<B>),
-  ZA(ZA), ZB(ZB), Unit(()), WA(WA), BoxZA(Box<ZA>), RcZA(Rc<ZA>), ArcZA(Arc<ZA>),
+  ZA(ZA), ZB(ZB), Unit(()), WA(WA), BoxZA(Box<ZA>), RcZA(Rc<ZA>), ArcZA(Arc<ZA>), HK(HK), CK(CK),
 }
 
 macro_rules! conc_each {
   ($self:expr, $x:ident => $e:expr) => {
     match $self {
       Conc::A($x) => $e, Conc::B($x) => $e, Conc::Tup($x) => $e, Conc::U8($x) => $e, Conc::BoxA($x) => $e, Conc::RcA($x) => $e, Conc::ArcA($x) => $e, Conc::BoxB($x) => $e,
-      Conc::ZA($x) => $e, Conc::ZB($x) => $e, Conc::Unit($x) => $e, Conc::WA($x) => $e, Conc::BoxZA($x) => $e, Conc::RcZA($x) => $e, Conc::ArcZA($x) => $e,
+      Conc::ZA($x) => $e, Conc::ZB($x) => $e, Conc::Unit($x) => $e, Conc::WA($x) => $e, Conc::BoxZA($x) => $e, Conc::RcZA($x) => $e, Conc::ArcZA($x) => $e, Conc::HK($x) => $e, Conc::CK($x) => $e,
     }
   };
 }
@@ -111,6 +125,7 @@ impl Conc {
       KFam::BoxB => Conc::BoxB(Box::new(B(v))),
       KFam::ZA => Conc::ZA(ZA), KFam::ZB => Conc::ZB(ZB), KFam::Unit => Conc::Unit(()), KFam::WA => Conc::WA(WA(ZA)),
       KFam::BoxZA => Conc::BoxZA(Box::new(ZA)), KFam::RcZA => Conc::RcZA(Rc::new(ZA)), KFam::ArcZA => Conc::ArcZA(Arc::new(ZA)),
+      KFam::HK => Conc::HK(HK(0, v)), KFam::CK => Conc::CK(CK(v)),
     }
   }
   /// `&x as &dyn KeyObj` of the value stored in this enum.
@@ -131,6 +146,7 @@ pub fn static_form(k: (KFam, u8)) -> Option<&'static dyn KeyObj> {
     (KFam::A, 0) => &S_A0 as &dyn KeyObj, (KFam::A, 1) => &S_A1, (KFam::B, 0) => &S_B0, (KFam::B, 1) => &S_B1,
     (KFam::Tup, 0) => &S_T0, (KFam::Tup, 1) => &S_T1, (KFam::U8, 0) => &S_U0, (KFam::U8, 1) => &S_U1,
     (KFam::ZA, 0) => &S_ZA, (KFam::ZB, 0) => &S_ZB, (KFam::Unit, 0) => &S_UNIT, (KFam::WA, 0) => &S_WA,
+    (KFam::HK, 0) => &S_HK0, (KFam::HK, 1) => &S_HK1, (KFam::CK, 0) => &S_CK0, (KFam::CK, 1) => &S_CK1,
     _ => return None,
   })
 }
@@ -140,6 +156,7 @@ pub fn promoted_form(k: (KFam, u8)) -> Option<&'static dyn KeyObj> {
     (KFam::A, 0) => &A(0) as &dyn KeyObj, (KFam::A, 1) => &A(1), (KFam::B, 0) => &B(0), (KFam::B, 1) => &B(1),
     (KFam::Tup, 0) => &(0u8,), (KFam::Tup, 1) => &(1u8,), (KFam::U8, 0) => &0u8, (KFam::U8, 1) => &1u8,
     (KFam::ZA, 0) => &ZA, (KFam::ZB, 0) => &ZB, (KFam::Unit, 0) => &(), (KFam::WA, 0) => &WA(ZA),
+    (KFam::HK, 0) => &HK(0, 0), (KFam::HK, 1) => &HK(0, 1), (KFam::CK, 0) => &CK(0), (KFam::CK, 1) => &CK(1),
     _ => return None,
   })
 }
@@ -394,6 +411,8 @@ pub struct AStats {
   pub equality_evaluations: usize,
   pub same_key_pairs: usize,
   pub same_type_other_value: usize,
+  /// unequal values of one type whose hashes coincide (coarse hand-written Hash)
+  pub same_type_other_value_equal_hash: usize,
   pub cross_type_equal_value: usize,
   pub cross_type_other_value: usize,
   pub cross_type_equal_dyn_hash: usize,
@@ -458,6 +477,19 @@ impl Debug for ZRB { fn fmt(&self, f: &mut fmt::Formatter<'_>) -> fmt::Result { 
 pub struct Dual(pub u8);
 impl Debug for Dual { fn fmt(&self, f: &mut fmt::Formatter<'_>) -> fmt::Result { write!(f, "D({})", self.0) } }
 
+/// Task / resource types whose `Hash` is coarser than their `Eq`: `HT(a,b)` hashes `a` only (the alphabet uses
+/// HT(0,0) and HT(0,1): unequal, same hash), `CT(v)` and the resource `HR(v)` hash nothing (all values collide).
+/// `HT(0,b)` reads `RA(0)` and returns `cell*10+6+b`; `CT(v)` reads `HR(v)` and returns `cell*10+8+v`.
+#[derive(Clone, PartialEq, Eq, Debug)]
+pub struct HT(pub u8, pub u8);
+impl Hash for HT { fn hash<H: Hasher>(&self, state: &mut H) { self.0.hash(state); } }
+#[derive(Clone, PartialEq, Eq, Debug)]
+pub struct CT(pub u8);
+impl Hash for CT { fn hash<H: Hasher>(&self, _state: &mut H) {} }
+#[derive(Clone, PartialEq, Eq, Debug)]
+pub struct HR(pub u8);
+impl Hash for HR { fn hash<H: Hasher>(&self, _state: &mut H) {} }
+
 /// Cell store; one instance per resource TYPE, kept in pie's per-resource-type state (same state type for all).
 #[derive(Default, Clone, Debug)]
 pub struct Cells { pub v: [u8; 2] }
@@ -472,6 +504,7 @@ impl CellId for RB { fn cell_id(&self) -> usize { self.0 as usize } }
 impl CellId for ZRA { fn cell_id(&self) -> usize { 0 } }
 impl CellId for ZRB { fn cell_id(&self) -> usize { 0 } }
 impl CellId for Dual { fn cell_id(&self) -> usize { self.0 as usize } }
+impl CellId for HR { fn cell_id(&self) -> usize { self.0 as usize } }
 
 macro_rules! impl_cell_resource {
   ($ty:ty) => {
@@ -507,6 +540,7 @@ impl_cell_resource!(RB);
 impl_cell_resource!(ZRA);
 impl_cell_resource!(ZRB);
 impl_cell_resource!(Dual);
+impl_cell_resource!(HR);
 
 macro_rules! impl_reading_task {
   ($ty:ty, $slf:ident => $res:expr, $tag:expr) => {
@@ -527,35 +561,37 @@ impl_reading_task!(ZTB, _s => RB(0), 2);
 impl_reading_task!(ZUA, _s => ZRA, 3);
 impl_reading_task!(ZUB, _s => ZRB, 4);
 impl_reading_task!(Dual, s => Dual(s.0), 5);
+impl_reading_task!(HT, s => RA(0), 6 + s.1);
+impl_reading_task!(CT, s => HR(s.0), 8 + s.0);
 
 /// Leaf task families (concrete Rust types). `Unit` is pie's own `impl Task for ()` (output `()`, shown as 0).
 #[derive(Clone, Copy, PartialEq, Eq, Hash, PartialOrd, Ord, Debug)]
-pub enum Fam { A, B, BoxA, RcA, ArcA, BoxB, ZTA, ZTB, BoxZTA, ZUA, ZUB, Unit, Dual }
-pub const NF: usize = 13;
-pub const FAMS: [Fam; NF] = [Fam::A, Fam::B, Fam::BoxA, Fam::RcA, Fam::ArcA, Fam::BoxB, Fam::ZTA, Fam::ZTB, Fam::BoxZTA, Fam::ZUA, Fam::ZUB, Fam::Unit, Fam::Dual];
+pub enum Fam { A, B, BoxA, RcA, ArcA, BoxB, ZTA, ZTB, BoxZTA, ZUA, ZUB, Unit, Dual, HT, CT }
+pub const NF: usize = 15;
+pub const FAMS: [Fam; NF] = [Fam::A, Fam::B, Fam::BoxA, Fam::RcA, Fam::ArcA, Fam::BoxB, Fam::ZTA, Fam::ZTB, Fam::BoxZTA, Fam::ZUA, Fam::ZUB, Fam::Unit, Fam::Dual, Fam::HT, Fam::CT];
 
 #[derive(Clone, Copy, PartialEq, Eq, Hash, PartialOrd, Ord, Debug)]
-pub enum RFam { RA, RB, ZRA, ZRB, Dual }
-pub const NR: usize = 5;
-pub const RFAMS: [RFam; NR] = [RFam::RA, RFam::RB, RFam::ZRA, RFam::ZRB, RFam::Dual];
+pub enum RFam { RA, RB, ZRA, ZRB, Dual, HR }
+pub const NR: usize = 6;
+pub const RFAMS: [RFam; NR] = [RFam::RA, RFam::RB, RFam::ZRA, RFam::ZRB, RFam::Dual, RFam::HR];
 
 impl Fam {
   pub fn idx(self) -> usize { self as usize }
   pub fn name(self) -> &'static str {
     match self {
       Fam::A => "FA", Fam::B => "FB", Fam::BoxA => "Box<FA>", Fam::RcA => "Rc<FA>", Fam::ArcA => "Arc<FA>", Fam::BoxB => "Box<FB>",
-      Fam::ZTA => "ZTA", Fam::ZTB => "ZTB", Fam::BoxZTA => "Box<ZTA>", Fam::ZUA => "ZUA", Fam::ZUB => "ZUB", Fam::Unit => "()", Fam::Dual => "Dual",
+      Fam::ZTA => "ZTA", Fam::ZTB => "ZTB", Fam::BoxZTA => "Box<ZTA>", Fam::ZUA => "ZUA", Fam::ZUB => "ZUB", Fam::Unit => "()", Fam::Dual => "Dual", Fam::HT => "HT", Fam::CT => "CT",
     }
   }
   /// Tag shown in `P(tag,v)`.
   pub fn tag(self) -> &'static str {
     match self {
       Fam::A => "A", Fam::B => "B", Fam::BoxA => "BoxA", Fam::RcA => "RcA", Fam::ArcA => "ArcA", Fam::BoxB => "BoxB",
-      Fam::ZTA => "ZTA", Fam::ZTB => "ZTB", Fam::BoxZTA => "BoxZTA", Fam::ZUA => "ZUA", Fam::ZUB => "ZUB", Fam::Unit => "Unit", Fam::Dual => "Dual",
+      Fam::ZTA => "ZTA", Fam::ZTB => "ZTB", Fam::BoxZTA => "BoxZTA", Fam::ZUA => "ZUA", Fam::ZUB => "ZUB", Fam::Unit => "Unit", Fam::Dual => "Dual", Fam::HT => "HT", Fam::CT => "CT",
     }
   }
   /// Families of types without a field have the single value 0.
-  pub fn fieldless(self) -> bool { !matches!(self, Fam::A | Fam::B | Fam::BoxA | Fam::RcA | Fam::ArcA | Fam::BoxB | Fam::Dual) }
+  pub fn fieldless(self) -> bool { !matches!(self, Fam::A | Fam::B | Fam::BoxA | Fam::RcA | Fam::ArcA | Fam::BoxB | Fam::Dual | Fam::HT | Fam::CT) }
   pub fn values(self) -> &'static [u8] { if self.fieldless() { &[0] } else { &[0, 1] } }
   /// The resource a task of this family with value `v` reads.
   pub fn resource(self, v: u8) -> Option<RKey> {
@@ -567,24 +603,28 @@ impl Fam {
       Fam::ZUA => Some(RKey(RFam::ZRA, 0)),
       Fam::ZUB => Some(RKey(RFam::ZRB, 0)),
       Fam::Dual => Some(RKey(RFam::Dual, v)),
+      Fam::HT => Some(RKey(RFam::RA, 0)),
+      Fam::CT => Some(RKey(RFam::HR, v)),
       Fam::Unit => None,
     }
   }
-  /// Output of a task of this family that read `cell` (`()` is shown as 0).
-  pub fn out(self, cell: u8) -> u8 {
+  /// Output of the task of this family with value `v` that read `cell` (`()` is shown as 0).
+  pub fn out(self, v: u8, cell: u8) -> u8 {
     match self {
       Fam::A | Fam::BoxA | Fam::RcA | Fam::ArcA | Fam::ZTA | Fam::BoxZTA => cell * 10 + 1,
       Fam::B | Fam::BoxB | Fam::ZTB => cell * 10 + 2,
       Fam::ZUA => cell * 10 + 3,
       Fam::ZUB => cell * 10 + 4,
       Fam::Dual => cell * 10 + 5,
+      Fam::HT => cell * 10 + 6 + v,
+      Fam::CT => cell * 10 + 8 + v,
       Fam::Unit => 0,
     }
   }
 }
 impl RFam {
   pub fn idx(self) -> usize { self as usize }
-  pub fn name(self) -> &'static str { match self { RFam::RA => "RA", RFam::RB => "RB", RFam::ZRA => "ZRA", RFam::ZRB => "ZRB", RFam::Dual => "res:Dual" } }
+  pub fn name(self) -> &'static str { match self { RFam::RA => "RA", RFam::RB => "RB", RFam::ZRA => "ZRA", RFam::ZRB => "ZRB", RFam::Dual => "res:Dual", RFam::HR => "HR" } }
   pub fn fieldless(self) -> bool { matches!(self, RFam::ZRA | RFam::ZRB) }
   pub fn values(self) -> &'static [u8] { if self.fieldless() { &[0] } else { &[0, 1] } }
 }
@@ -613,6 +653,8 @@ impl Task for P {
       Fam::ZUB => context.require(&*Box::new(ZUB), EqualsChecker),
       Fam::Unit => { context.require(&*Box::new(()), EqualsChecker); 0 }
       Fam::Dual => context.require(&Dual(v), EqualsChecker),
+      Fam::HT => context.require(&HT(0, v), EqualsChecker),
+      Fam::CT => context.require(&CT(v), EqualsChecker),
     }
   }
 }
@@ -627,6 +669,7 @@ pub struct RKey(pub RFam, pub u8);
 impl TKey {
   pub fn name(&self) -> String {
     match self {
+      TKey::Leaf(Fam::HT, v) => format!("HT(0,{})", v),
       TKey::Leaf(f, v) => if f.fieldless() { f.name().to_string() } else { format!("{}({})", f.name(), v) },
       TKey::Par(f, v) => format!("P({},{})", f.tag(), v),
     }
@@ -663,6 +706,8 @@ pub fn classify_task(k: &dyn KeyObj) -> Option<TKey> {
   if a.is::<ZUB>() { return Some(TKey::Leaf(Fam::ZUB, 0)); }
   if a.is::<()>() { return Some(TKey::Leaf(Fam::Unit, 0)); }
   if let Some(t) = a.downcast_ref::<Dual>() { return Some(TKey::Leaf(Fam::Dual, t.0)); }
+  if let Some(t) = a.downcast_ref::<HT>() { if t.0 == 0 { return Some(TKey::Leaf(Fam::HT, t.1)); } }
+  if let Some(t) = a.downcast_ref::<CT>() { return Some(TKey::Leaf(Fam::CT, t.0)); }
   if let Some(t) = a.downcast_ref::<P>() { return Some(TKey::Par(t.0, t.1)); }
   None
 }
@@ -673,6 +718,7 @@ pub fn classify_res(k: &dyn KeyObj) -> Option<RKey> {
   if a.is::<ZRA>() { return Some(RKey(RFam::ZRA, 0)); }
   if a.is::<ZRB>() { return Some(RKey(RFam::ZRB, 0)); }
   if let Some(r) = a.downcast_ref::<Dual>() { return Some(RKey(RFam::Dual, r.0)); }
+  if let Some(r) = a.downcast_ref::<HR>() { return Some(RKey(RFam::HR, r.0)); }
   None
 }
 
@@ -860,7 +906,7 @@ pub struct Obs {
 impl Obs {
   pub fn to_json(&self) -> Value {
     json!({"outputs": self.outputs, "executed": self.executed.iter().map(|k| k.name()).collect::<Vec<_>>(), "panic": self.panic,
-      "dependency_check_errors": self.dep_errors, "cells": {"RA": self.cells[0], "RB": self.cells[1], "ZRA": self.cells[2][0], "ZRB": self.cells[3][0], "Dual": self.cells[4]}, "store": self.census.to_json()})
+      "dependency_check_errors": self.dep_errors, "cells": {"RA": self.cells[0], "RB": self.cells[1], "ZRA": self.cells[2][0], "ZRB": self.cells[3][0], "Dual": self.cells[4], "HR": self.cells[5]}, "store": self.census.to_json()})
   }
 }
 
@@ -883,6 +929,8 @@ fn require_key(s: &mut pie::Session<'_>, k: TKey, z: ZForm) -> u8 {
     TKey::Leaf(Fam::ZUB, _) => zreq!(ZUB),
     TKey::Leaf(Fam::Unit, _) => { zreq!(()); 0 }
     TKey::Leaf(Fam::Dual, v) => s.require(&Dual(v)),
+    TKey::Leaf(Fam::HT, v) => s.require(&HT(0, v)),
+    TKey::Leaf(Fam::CT, v) => s.require(&CT(v)),
     TKey::Leaf(Fam::A, v) => s.require(&FA(v)),
     TKey::Leaf(Fam::B, v) => s.require(&FB(v)),
     TKey::Leaf(Fam::BoxA, v) => s.require(&Box::new(FA(v))),
@@ -901,7 +949,8 @@ fn read_cells(pie: &mut Pie<Rec>) -> [[u8; 2]; NR] {
   let c = pie.resource_state_mut::<ZRA>().get_or_set_default_mut::<Cells>().v;
   let d = pie.resource_state_mut::<ZRB>().get_or_set_default_mut::<Cells>().v;
   let e = pie.resource_state_mut::<Dual>().get_or_set_default_mut::<Cells>().v;
-  [a, b, c, d, e]
+  let f = pie.resource_state_mut::<HR>().get_or_set_default_mut::<Cells>().v;
+  [a, b, c, d, e, f]
 }
 
 /// Applies `op` to the real Pie. `observe`: also take the store census (skipped for path prefixes).
@@ -917,6 +966,7 @@ pub fn apply_real(pie: &mut Pie<Rec>, op: &Op, observe: bool, z: ZForm) -> Obs {
     Op::SetCell(RKey(RFam::ZRA, _), v) => { pie.resource_state_mut::<ZRA>().get_or_set_default_mut::<Cells>().v[0] = *v; }
     Op::SetCell(RKey(RFam::ZRB, _), v) => { pie.resource_state_mut::<ZRB>().get_or_set_default_mut::<Cells>().v[0] = *v; }
     Op::SetCell(RKey(RFam::Dual, id), v) => { pie.resource_state_mut::<Dual>().get_or_set_default_mut::<Cells>().v[*id as usize] = *v; }
+    Op::SetCell(RKey(RFam::HR, id), v) => { pie.resource_state_mut::<HR>().get_or_set_default_mut::<Cells>().v[*id as usize] = *v; }
     Op::Req(_) | Op::Req2(_, _) => {
       let keys: Vec<TKey> = match op { Op::Req(k) => vec![*k], Op::Req2(a, b) => vec![*a, *b], _ => unreachable!() };
       let res = catch_unwind(AssertUnwindSafe(|| {
@@ -941,6 +991,7 @@ pub fn apply_real(pie: &mut Pie<Rec>, op: &Op, observe: bool, z: ZForm) -> Obs {
             (RKey(RFam::RA, id), _) => b.schedule_tasks_affected_by(&RA(id)),
             (RKey(RFam::RB, id), _) => b.schedule_tasks_affected_by(&RB(id)),
             (RKey(RFam::Dual, id), _) => b.schedule_tasks_affected_by(&Dual(id)),
+            (RKey(RFam::HR, id), _) => b.schedule_tasks_affected_by(&HR(id)),
             (RKey(RFam::ZRA, _), ZForm::BoxDeref) => { let x = Box::new(ZRA); b.schedule_tasks_affected_by(&*x) }
             (RKey(RFam::ZRA, _), ZForm::Local) => { let x = ZRA; b.schedule_tasks_affected_by(&x) }
             (RKey(RFam::ZRB, _), ZForm::BoxDeref) => { let x = Box::new(ZRB); b.schedule_tasks_affected_by(&*x) }
@@ -979,6 +1030,10 @@ pub struct MState {
   pub cells: [[u8; 2]; NR],
 }
 
+/// Canonical encoding of a model state: 4 bits per (task family, value) and 2 bits per (resource family, value).
+pub type Enc = (u128, u32);
+const _: () = assert!(NF * 2 * 4 <= 128 && NR * 2 * 2 <= 32);
+
 /// What the model expects from one operation.
 #[derive(Clone, PartialEq, Eq, Debug, Default)]
 pub struct Expect {
@@ -999,7 +1054,7 @@ impl MState {
       self.leaf[f.idx()][v as usize] = Some(cell);
       if let Some(r) = f.resource(v) { self.rnodes[r.0.idx()][r.1 as usize] = true; }
     }
-    f.out(cell)
+    f.out(v, cell)
   }
 
   fn require(&mut self, k: TKey, executed: &mut Vec<TKey>) -> u8 {
@@ -1045,7 +1100,7 @@ impl MState {
           if read == cell { continue; }
           e.executed.push(TKey::Leaf(f, v));
           self.leaf[f.idx()][v as usize] = Some(cell);
-          let out = f.out(cell);
+          let out = f.out(v, cell);
           if let Some(seen) = self.par[f.idx()][v as usize] {
             if seen != out {
               e.executed.push(TKey::Par(f, v));
@@ -1064,7 +1119,7 @@ impl MState {
     let mut c = Census::default();
     for f in FAMS { for &v in f.values() {
       if let Some(cell) = self.leaf[f.idx()][v as usize] {
-        c.tasks.push((TKey::Leaf(f, v), Some(f.out(cell))));
+        c.tasks.push((TKey::Leaf(f, v), Some(f.out(v, cell))));
         if let Some(r) = f.resource(v) { c.edges.push(EdgeObs::Read { src: TKey::Leaf(f, v), dst: r, stamp: Some(cell) }); }
       }
       if let Some(seen) = self.par[f.idx()][v as usize] {
@@ -1082,16 +1137,17 @@ impl MState {
   }
 
   /// Canonical encoding (injective) used for deduplication.
-  pub fn encode(&self) -> u128 {
+  pub fn encode(&self) -> Enc {
     let mut x: u128 = 0;
+    let mut y: u32 = 0;
     let mut push = |val: u128, bits: u32| { x = (x << bits) | val; };
     for f in FAMS { for v in 0..2usize {
       push(match self.leaf[f.idx()][v] { None => 0, Some(c) => 1 + c as u128 }, 2);
       // seen child output is cell*10+tag with a tag fixed by the family: encode the cell part.
       push(match self.par[f.idx()][v] { None => 0, Some(o) => 1 + (o / 10) as u128 }, 2);
     } }
-    for rf in 0..NR { for v in 0..2 { push(self.rnodes[rf][v] as u128, 1); push(self.cells[rf][v] as u128, 1); } }
-    x
+    for rf in 0..NR { for v in 0..2 { y = (y << 2) | ((self.rnodes[rf][v] as u32) << 1) | self.cells[rf][v] as u32; } }
+    (x, y)
   }
 
   /// Rule for `distinct_nontrivial`: at least two task nodes of different concrete types that look alike coexist:
@@ -1102,7 +1158,11 @@ impl MState {
       let n = FAMS.iter().filter(|f| !f.fieldless() && self.leaf[f.idx()][v].is_some()).count();
       if n >= 2 { return true; }
     }
-    self.zero_sized_lookalikes()
+    self.zero_sized_lookalikes() || self.colliding_keys()
+  }
+  /// Two unequal task keys of one type with identical hash coexist.
+  pub fn colliding_keys(&self) -> bool {
+    [Fam::HT, Fam::CT].iter().any(|f| self.leaf[f.idx()][0].is_some() && self.leaf[f.idx()][1].is_some())
   }
   /// At least two task nodes of different zero-sized task types coexist.
   pub fn zero_sized_lookalikes(&self) -> bool {
@@ -1113,10 +1173,10 @@ impl MState {
     let mut leaf = BTreeMap::new();
     let mut par = BTreeMap::new();
     for f in FAMS { for &v in f.values() {
-      if let Some(c) = self.leaf[f.idx()][v as usize] { leaf.insert(TKey::Leaf(f, v).name(), json!({"read_cell": c, "output": f.out(c)})); }
+      if let Some(c) = self.leaf[f.idx()][v as usize] { leaf.insert(TKey::Leaf(f, v).name(), json!({"read_cell": c, "output": f.out(v, c)})); }
       if let Some(o) = self.par[f.idx()][v as usize] { par.insert(TKey::Par(f, v).name(), json!({"child_output_seen": o})); }
     } }
-    json!({"leaf": leaf, "parents": par, "cells": {"RA": self.cells[0], "RB": self.cells[1], "ZRA": self.cells[2][0], "ZRB": self.cells[3][0], "Dual": self.cells[4]},
+    json!({"leaf": leaf, "parents": par, "cells": {"RA": self.cells[0], "RB": self.cells[1], "ZRA": self.cells[2][0], "ZRB": self.cells[3][0], "Dual": self.cells[4], "HR": self.cells[5]},
       "resource_nodes": self.census().resources.iter().map(|r| r.name()).collect::<Vec<_>>()})
   }
 }
@@ -1301,8 +1361,19 @@ impl Cfg {
     let p = TKey::Par;
     let (ra0, rb0, ra1, rb1, zra, zrb) = (RKey(RFam::RA, 0), RKey(RFam::RB, 0), RKey(RFam::RA, 1), RKey(RFam::RB, 1), RKey(RFam::ZRA, 0), RKey(RFam::ZRB, 0));
     let (d0, d1) = (RKey(RFam::Dual, 0), RKey(RFam::Dual, 1));
+    let (hr0, hr1) = (RKey(RFam::HR, 0), RKey(RFam::HR, 1));
     match tier {
       Tier::Thorough => vec![
+        Cfg {
+          name: "coarse-hash",
+          keys: vec![l(HT, 0), l(HT, 1), l(CT, 0), l(CT, 1), l(A, 0), p(HT, 0), p(HT, 1), p(CT, 0), p(CT, 1)],
+          pairs: vec![(l(HT, 0), l(HT, 1)), (l(CT, 1), l(CT, 0)), (p(HT, 1), l(HT, 0)), (l(A, 0), l(HT, 0))],
+          resources: vec![ra0, hr0, hr1],
+          bu_resources: vec![ra0, hr0, hr1],
+          depth_cap: 64,
+          wall_cap_s: 100.0,
+          pruned_note: "coarse-hash alphabet: keys whose hand-written Hash is coarser than Eq — tasks HT(0,0), HT(0,1) (hash over the first field only; both read RA(0)), CT(0), CT(1) (constant hash) reading the resources HR(0), HR(1) (constant hash), their four parents, next to FA(0); cells RA(0), HR(0), HR(1)",
+        },
         Cfg {
           name: "dual-role",
           keys: vec![l(A, 0), l(B, 0), l(BoxA, 0), l(ZTA, 0), l(Dual, 0), l(Dual, 1), p(A, 0), p(Dual, 0)],
@@ -1335,13 +1406,22 @@ impl Cfg {
         },
       ],
       Tier::Quick => vec![Cfg {
+        name: "quick-coarse-hash",
+        keys: vec![l(HT, 0), l(HT, 1), l(CT, 0), l(CT, 1), l(A, 0), p(HT, 1), p(CT, 0)],
+        pairs: vec![(l(HT, 0), l(HT, 1)), (l(CT, 1), l(CT, 0))],
+        resources: vec![ra0, hr0, hr1],
+        bu_resources: vec![ra0, hr0, hr1],
+        depth_cap: 64,
+        wall_cap_s: 6.0,
+        pruned_note: "quick coarse-hash alphabet: tasks HT(0,0), HT(0,1) (hash over the first field only; both read RA(0)), CT(0), CT(1) (constant hash) reading the resources HR(0), HR(1) (constant hash), P(HT,1), P(CT,0), next to FA(0); cells RA(0), HR(0), HR(1)",
+      }, Cfg {
         name: "quick-dual",
         keys: vec![l(A, 0), l(B, 0), l(BoxA, 0), l(RcA, 0), l(ZTA, 0), l(Dual, 0), l(Dual, 1), p(Dual, 0)],
         pairs: vec![(l(BoxA, 0), l(A, 0)), (l(Dual, 0), l(Dual, 1))],
         resources: vec![ra0, d0],
         bu_resources: vec![ra0, d0, d1],
         depth_cap: 64,
-        wall_cap_s: 8.0,
+        wall_cap_s: 12.0,
         pruned_note: "quick dual-role alphabet: Dual(0), Dual(1) used as task AND as resource (task Dual(v) reads resource Dual(v)), P(Dual,0), next to FA(0), FB(0), Box<FA>(0), Rc<FA>(0), ZTA; cells RA(0), Dual(0) (RB(0), Dual(1) stay 0); bottom-up reports of RA(0), Dual(0), Dual(1)",
       }, Cfg {
         name: "quick-mixed",
@@ -1369,6 +1449,7 @@ pub struct BStats {
   pub wall_capped: bool,
   pub nontrivial_states: usize,
   pub zero_sized_lookalike_states: usize,
+  pub colliding_states: usize,
   /// [op kind: 0 require, 1 bottom-up][executed tasks 0,1,2,3+]
   pub exec_hist: [[usize; 4]; 2],
   pub outputs_hist: BTreeMap<u8, usize>,
@@ -1404,7 +1485,7 @@ pub fn bfs(cfg: &Cfg, start: std::time::Instant) -> BfsResult {
   let alphabet = cfg.alphabet();
   let mut states: Vec<MState> = vec![MState::default()];
   let mut parent: Vec<(u32, u16)> = vec![(u32::MAX, 0)];
-  let mut visited: HashSet<u128> = HashSet::new();
+  let mut visited: HashSet<Enc> = HashSet::new();
   visited.insert(states[0].encode());
   let mut frontier: Vec<u32> = vec![0];
   let mut stats = BStats::default();
@@ -1425,7 +1506,7 @@ pub fn bfs(cfg: &Cfg, start: std::time::Instant) -> BfsResult {
     let next = AtomicUsize::new(0);
     let nthreads = threads();
     // (frontier position, op index, encoded successor) of successors not yet visited before this level
-    let mut new_succ: Vec<(u32, u16, u128)> = Vec::new();
+    let mut new_succ: Vec<(u32, u16, Enc)> = Vec::new();
     let mut level_fails: Vec<LevelFail> = Vec::new();
     std::thread::scope(|sc| {
       let mut handles = Vec::new();
@@ -1434,7 +1515,7 @@ pub fn bfs(cfg: &Cfg, start: std::time::Instant) -> BfsResult {
         handles.push(sc.spawn(move || {
           crate::runner::install_panic_hook();
           let mut st = BStats::default();
-          let mut succ: Vec<(u32, u16, u128)> = Vec::new();
+          let mut succ: Vec<(u32, u16, Enc)> = Vec::new();
           let mut lf: Vec<LevelFail> = Vec::new();
           loop {
             let lo = next.fetch_add(8, Ordering::SeqCst);
@@ -1537,6 +1618,7 @@ pub fn bfs(cfg: &Cfg, start: std::time::Instant) -> BfsResult {
   stats.states = states.len();
   stats.nontrivial_states = states.iter().filter(|s| s.nontrivial()).count();
   stats.zero_sized_lookalike_states = states.iter().filter(|s| s.zero_sized_lookalikes()).count();
+  stats.colliding_states = states.iter().filter(|s| s.colliding_keys()).count();
   let deepest_path = path_of(&parent, (states.len() - 1) as u32);
   BfsResult { stats, fails, deepest_path }
 }
@@ -1545,8 +1627,8 @@ pub fn bfs(cfg: &Cfg, start: std::time::Instant) -> BfsResult {
 // Driver
 // =====================================================================================================================
 
-const RULE: &str = "identity = (concrete type, value): part A — for every ordered pair of keys from 15 families (8 same-representation families with a field x 2 values; 7 field-less ones: unit structs ZA, ZB, WA(ZA), pie's unit key (), Box/Rc/Arc of a unit struct), every one of the six equality routes through dyn KeyObj, evaluated for every combination of operand forms (borrowed from a value, boxed, static, promoted constant), is true iff same type and equal value, equal keys hash equal, and hash maps/sets (random, fixed and all-colliding hasher) keep exactly one entry per (type,value) and find it through every operand form; part B — after every operation of every explored sequence on a real Pie the returned outputs, the executed task identities (tracker), and the complete store census (hook: task nodes with cached outputs, resource nodes, edges, lookup-map sizes) equal a reference model whose cache is keyed by (type,value); zero-sized task / resource keys are handed to pie through `&*Box::new(key)` (the address every stored zero-sized key has)";
-const NONTRIVIAL_RULE: &str = "part A: ordered cross-type pairs with equal value whose dyn-KeyObj hashes coincide (the cases where only the type check separates the keys; all pairs of zero-sized types are among them); part B: distinct explored states in which at least two task nodes of different concrete types that look alike coexist in the store (same value among FA/FB/Box/Rc/Arc, or two zero-sized task types)";
+const RULE: &str = "identity = (concrete type, value): part A — for every ordered pair of keys from 17 families (8 same-representation families with a field x 2 values; 7 field-less ones: unit structs ZA, ZB, WA(ZA), pie's unit key (), Box/Rc/Arc of a unit struct; 2 families whose hand-written Hash is coarser than Eq: HK(0,b) hashing the first field only and CK(v) with a constant hash, 2 unequal colliding values each), every one of the six equality routes through dyn KeyObj, evaluated for every combination of operand forms (borrowed from a value, boxed, static, promoted constant), is true iff same type and equal value, equal keys hash equal, and hash maps/sets (random, fixed and all-colliding hasher) keep exactly one entry per (type,value) and find it through every operand form; part B — after every operation of every explored sequence on a real Pie the returned outputs, the executed task identities (tracker), and the complete store census (hook: task nodes with cached outputs, resource nodes, edges, lookup-map sizes) equal a reference model whose cache is keyed by (type,value); zero-sized task / resource keys are handed to pie through `&*Box::new(key)` (the address every stored zero-sized key has); the alphabets include a type used in both roles (Dual) and task / resource types with a Hash coarser than Eq (HT, CT, HR: unequal values with identical hash are different tasks / resources)";
+const NONTRIVIAL_RULE: &str = "part A: ordered cross-type pairs with equal value whose dyn-KeyObj hashes coincide (the cases where only the type check separates the keys; all pairs of zero-sized types are among them) plus ordered pairs of unequal values of one type with identical hash (coarse Hash: only Eq separates them); part B: distinct explored states in which at least two task nodes of different concrete types that look alike coexist in the store (same value among FA/FB/Box/Rc/Arc, or two zero-sized task types) or two unequal task keys of one type with identical hash coexist (HT(0,0)/HT(0,1), CT(0)/CT(1))";
 
 /// How often every scripted path is executed on fresh instances (fresh hash seeds).
 const SCRIPTED_RUNS: usize = 16;
@@ -1560,6 +1642,7 @@ fn scripted_paths() -> Vec<(&'static str, Vec<Op>)> {
   let p = TKey::Par;
   let (ra0, rb0, ra1, rb1, zra, zrb) = (RKey(RFam::RA, 0), RKey(RFam::RB, 0), RKey(RFam::RA, 1), RKey(RFam::RB, 1), RKey(RFam::ZRA, 0), RKey(RFam::ZRB, 0));
   let (d0, d1) = (RKey(RFam::Dual, 0), RKey(RFam::Dual, 1));
+  let (hr0, hr1) = (RKey(RFam::HR, 0), RKey(RFam::HR, 1));
   vec![
     // smallest case first: two unit-struct tasks that behave differently
     ("two-unit-struct-tasks", vec![Op::Req(l(ZTA, 0)), Op::Req(l(ZTB, 0)), Op::Req(l(ZTA, 0)), Op::Req2(l(ZTB, 0), l(ZTA, 0))]),
@@ -1568,6 +1651,12 @@ fn scripted_paths() -> Vec<(&'static str, Vec<Op>)> {
       Op::Req(l(BoxA, 0)), Op::Req(l(A, 0)), Op::Req(l(BoxA, 0)), Op::Req(l(BoxB, 0)), Op::Req(l(B, 0)), Op::Req(l(RcA, 0)), Op::Req(l(ArcA, 0)), Op::Req(l(A, 0)),
       Op::Req(l(BoxZTA, 0)), Op::Req(l(ZTA, 0)), Op::Req(l(A, 1)), Op::Req(l(BoxA, 1)), Op::Req(p(A, 0)), Op::Req(p(BoxA, 0)),
       Op::SetCell(ra0, 1), Op::Req(l(A, 0)), Op::Req(l(BoxA, 0)), Op::BottomUp(ra0), Op::Req(p(A, 0)),
+    ]),
+    // unequal keys of one type with the same hash (Hash coarser than Eq), as tasks and as resources
+    ("coarse-hash", vec![
+      Op::Req(l(HT, 0)), Op::Req(l(HT, 1)), Op::Req(l(HT, 0)), Op::Req(l(CT, 0)), Op::Req(l(CT, 1)), Op::Req2(l(CT, 1), l(CT, 0)),
+      Op::SetCell(hr1, 1), Op::Req(l(CT, 0)), Op::Req(l(CT, 1)), Op::BottomUp(hr0), Op::SetCell(ra0, 1), Op::BottomUp(ra0),
+      Op::Req(p(HT, 1)), Op::Req(p(CT, 0)), Op::Req(p(HT, 0)), Op::SetCell(hr0, 1), Op::BottomUp(hr0), Op::Req(p(CT, 0)), Op::Req2(l(HT, 1), l(HT, 0)),
     ]),
     // one type in both roles: task Dual(v) reads resource Dual(v)
     ("dual-role", vec![
@@ -1624,7 +1713,7 @@ fn part_a(report: &mut dyn FnMut(Violation)) -> (AStats, Vec<Value>) {
       st.evaluations += o.eqs.len(); // six equality routes x operand forms
       st.equality_evaluations += o.eqs.len();
       if x == y { st.same_key_pairs += 1; }
-      else if x.0 == y.0 { st.same_type_other_value += 1; }
+      else if x.0 == y.0 { st.same_type_other_value += 1; if o.hash_dyn_x[0] == o.hash_dyn_y[0] { st.same_type_other_value_equal_hash += 1; } }
       else if x.1 == y.1 {
         st.cross_type_equal_value += 1;
         if o.hash_dyn_x[0] == o.hash_dyn_y[0] { st.cross_type_equal_dyn_hash += 1; }
@@ -1637,7 +1726,7 @@ fn part_a(report: &mut dyn FnMut(Violation)) -> (AStats, Vec<Value>) {
       if o.hash_dyn_x[0] == o.hash_conc_x { st.dyn_hash_equals_concrete_hash += 1; }
       let name = |k: &(KFam, u8)| a_key_name(*k);
       let is = |a: &str, b: &str| name(x) == a && name(y) == b;
-      if is("A:0", "B:0") || is("A:0", "Box<A>:0") || is("A:0", "A:0") || is("A:0", "A:1") || is("ZA:0", "ZB:0") || is("ZA:0", "():0") || is("ZA:0", "Box<ZA>:0") {
+      if is("A:0", "B:0") || is("A:0", "Box<A>:0") || is("A:0", "A:0") || is("A:0", "A:1") || is("ZA:0", "ZB:0") || is("ZA:0", "():0") || is("ZA:0", "Box<ZA>:0") || is("HK(0,_):0", "HK(0,_):1") || is("CK:0", "CK:1") {
         samples.push(json!({"part": "A", "x": a_key_name(*x), "y": a_key_name(*y), "expected_same": x == y, "observed": o.to_json()}));
       }
       for f in judge_pair(*x, *y, &o) {
@@ -1736,13 +1825,14 @@ pub fn run(args: &Args) -> i32 {
       "depth_cap": cfg.depth_cap, "wall_cap_s_from_start": cfg.wall_cap_s,
       "states": s.states, "transitions": s.transitions, "max_depth": s.max_depth, "wall_s": start.elapsed().as_secs_f64() - t0,
       "search_end": if s.fixed_point { "fixed point" } else if s.depth_capped { "depth cap" } else if s.wall_capped { "wall cap" } else { "violation" },
-      "states_with_lookalike_task_nodes": s.nontrivial_states, "states_with_two_zero_sized_task_types": s.zero_sized_lookalike_states,
+      "states_with_lookalike_task_nodes": s.nontrivial_states, "states_with_two_zero_sized_task_types": s.zero_sized_lookalike_states, "states_with_two_colliding_unequal_task_keys": s.colliding_states,
       "states_per_bfs_level": s.levels,
     }));
     total.merge(s);
     total.states += s.states;
     total.nontrivial_states += s.nontrivial_states;
     total.zero_sized_lookalike_states += s.zero_sized_lookalike_states;
+    total.colliding_states += s.colliding_states;
     total.max_depth = total.max_depth.max(s.max_depth);
     total.fixed_point &= s.fixed_point;
     total.depth_capped |= s.depth_capped;
@@ -1769,14 +1859,15 @@ pub fn run(args: &Args) -> i32 {
   rep.set("search_end", json!(if s.fixed_point { "fixed point" } else if s.depth_capped { "depth cap" } else if s.wall_capped { "wall cap" } else { "violation" }));
   rep.set("rule", json!(RULE));
   rep.set("evaluations", json!(ast.evaluations + s.transitions + scripted_steps));
-  rep.set("distinct_nontrivial", json!(ast.cross_type_equal_dyn_hash + s.nontrivial_states));
+  rep.set("distinct_nontrivial", json!(ast.cross_type_equal_dyn_hash + ast.same_type_other_value_equal_hash + s.nontrivial_states));
   rep.set("distinct_nontrivial_rule", json!(NONTRIVIAL_RULE));
-  rep.set("distinct_nontrivial_detail", json!({"part_a_cross_type_equal_value_equal_hash_pairs": ast.cross_type_equal_dyn_hash, "part_a_pairs_of_two_different_zero_sized_types": ast.cross_type_zero_sized_pairs,
+  rep.set("distinct_nontrivial_detail", json!({"part_a_cross_type_equal_value_equal_hash_pairs": ast.cross_type_equal_dyn_hash, "part_a_same_type_unequal_value_equal_hash_pairs": ast.same_type_other_value_equal_hash, "part_b_states_with_two_colliding_unequal_task_keys": s.colliding_states, "part_a_pairs_of_two_different_zero_sized_types": ast.cross_type_zero_sized_pairs,
     "part_b_states_with_lookalike_task_nodes": s.nontrivial_states, "part_b_states_with_two_zero_sized_task_types": s.zero_sized_lookalike_states}));
   rep.set("distinct_outcomes", json!({
     "part_a": {
       "ordered_pairs": ast.pairs, "equality_evaluations (routes x operand forms)": ast.equality_evaluations,
       "same_key_pairs": ast.same_key_pairs, "same_type_other_value_pairs": ast.same_type_other_value,
+      "same_type_other_value_pairs_with_equal_hash (coarse Hash)": ast.same_type_other_value_equal_hash,
       "cross_type_equal_value_pairs": ast.cross_type_equal_value, "cross_type_other_value_pairs": ast.cross_type_other_value,
       "cross_type_equal_value_pairs_with_equal_dyn_hash": ast.cross_type_equal_dyn_hash, "cross_type_equal_value_pairs_with_equal_debug_text": ast.cross_type_equal_debug,
       "pairs_of_two_different_zero_sized_types": ast.cross_type_zero_sized_pairs,
@@ -1794,7 +1885,7 @@ pub fn run(args: &Args) -> i32 {
     },
   }));
   rep.set("bounds", json!({
-    "part_a": {"families": KFAMS.iter().map(|f| f.name()).collect::<Vec<_>>(), "values": "0 and 1 for families with a field, the single value for field-less families", "keys": a_keys().len(), "pairs": "all ordered pairs",
+    "part_a": {"families": KFAMS.iter().map(|f| f.name()).collect::<Vec<_>>(), "values": "0 and 1 for families with a field (HK: HK(0,0), HK(0,1)), the single value for field-less families", "keys": a_keys().len(), "pairs": "all ordered pairs",
       "operand_forms": ["stored (borrowed from a value)", "boxed", "static", "promoted constant"], "hashers": ["RandomState", "DefaultHasher(fixed)", "ConstHasher(all collide)"], "insertion_orders": "all rotations, forward and reversed"},
     "part_b": {"alphabets": per_alphabet, "zero_sized_operand_form_in_bfs": "box-deref", "scripted_paths": scripted_paths().iter().map(|(n, p)| json!({"name": n, "ops": p.len(), "operand_forms": ["box-deref", "local"]})).collect::<Vec<_>>(), "threads": threads()},
     "dyn_TaskObj": "not nameable outside the crate (trait_object::task is pub(crate)); task identity is checked through the real Store in part B",
@@ -2017,6 +2108,31 @@ mod tests {
   }
 
   #[test]
+  fn unequal_keys_with_equal_hash_are_different_tasks_and_resources() {
+    use std::hash::{Hash, Hasher};
+    let h = |k: &dyn Fn(&mut DefaultHasher)| { let mut s = DefaultHasher::new(); k(&mut s); s.finish() };
+    assert_eq!(h(&|s| HT(0, 0).hash(s)), h(&|s| HT(0, 1).hash(s)));
+    assert_eq!(h(&|s| CT(0).hash(s)), h(&|s| CT(1).hash(s)));
+    assert_eq!(h(&|s| HR(0).hash(s)), h(&|s| HR(1).hash(s)));
+    assert!(HT(0, 0) != HT(0, 1) && CT(0) != CT(1) && HR(0) != HR(1));
+    let (hr0, hr1) = (RKey(RFam::HR, 0), RKey(RFam::HR, 1));
+    let mut m = MState::default();
+    assert_eq!(m.step(&Op::Req(l(Fam::HT, 0))), Expect { outputs: vec![6], executed: vec![l(Fam::HT, 0)] });
+    assert_eq!(m.step(&Op::Req(l(Fam::HT, 1))), Expect { outputs: vec![7], executed: vec![l(Fam::HT, 1)] });
+    assert_eq!(m.step(&Op::Req2(l(Fam::CT, 1), l(Fam::CT, 0))), Expect { outputs: vec![9, 8], executed: vec![l(Fam::CT, 0), l(Fam::CT, 1)] });
+    assert_eq!(m.census().tasks.len(), 4);
+    assert_eq!(m.census().resources, vec![RA0, hr0, hr1]);
+    m.step(&Op::SetCell(hr1, 1));
+    assert!(m.step(&Op::Req(l(Fam::CT, 0))).executed.is_empty());
+    assert!(m.step(&Op::BottomUp(hr0)).executed.is_empty());
+    assert_eq!(m.step(&Op::BottomUp(hr1)).executed, vec![l(Fam::CT, 1)]);
+    assert_eq!(m.step(&Op::Req(l(Fam::CT, 1))).outputs, vec![19]);
+    m.step(&Op::SetCell(RA0, 1));
+    assert_eq!(m.step(&Op::BottomUp(RA0)).executed, vec![l(Fam::HT, 0), l(Fam::HT, 1)]);
+    assert_eq!(m.step(&Op::Req(p(Fam::HT, 1))), Expect { outputs: vec![17], executed: vec![p(Fam::HT, 1)] });
+  }
+
+  #[test]
   fn bottom_up_creates_the_reported_resource_node_only() {
     let mut m = MState::default();
     let e = m.step(&Op::BottomUp(RB0));
@@ -2029,7 +2145,7 @@ mod tests {
   fn encoding_is_injective_on_reachable_states() {
     let cfg = Cfg::for_tier(Tier::Quick).remove(0);
     let ops = cfg.alphabet();
-    let mut seen: HashMap<u128, MState> = HashMap::new();
+    let mut seen: HashMap<Enc, MState> = HashMap::new();
     let mut frontier = vec![MState::default()];
     seen.insert(frontier[0].encode(), frontier[0]);
     for _ in 0..4 {
